@@ -324,7 +324,7 @@ let () =
             List.iter (fun t -> Hashtbl.replace tbl (int_of_z t) (s.pcs t)) alltids;
             let old = s.pcs in
             { s with pcs = (fun t -> match Hashtbl.find_opt tbl (int_of_z t) with Some p -> p | None -> old t) }) in
-          let (found, complete) = search fp show compact (rq_try ocb) (init_state (z_of_hex p0)) acts keys workers (20 * n + 100000) in
+          let (found, complete) = search fp show compact (rq_try ocb) (init_state (z_of_hex p0)) acts keys workers (4 * n + 150000) in
           (* the order found first, then whatever is left in stamp order: RootQR.replay executes it strictly *)
           let final =
             if complete then found
